@@ -6620,7 +6620,26 @@ tsk_tree_clear(tsk_tree_t *self)
     const bool sample_counts = !(self->options & TSK_NO_SAMPLE_COUNTS);
     const bool sample_lists = !!(self->options & TSK_SAMPLE_LISTS);
     const tsk_flags_t *flags = self->tree_sequence->tables->nodes.flags;
+    tsk_id_t v;
+    tsk_size_t n;
 
+    if (sample_counts && self->num_edges > 0) {
+        /* A sample with children carries the tracked counts of its descendants.
+         * Reduce each sample to its own count while the old topology is still
+         * available; num_samples is reset below, so use it as scratch space. */
+        for (j = 0; j < num_samples; j++) {
+            u = self->samples[j];
+            n = self->num_tracked_samples[u];
+            for (v = self->left_child[u]; v != TSK_NULL; v = self->right_sib[v]) {
+                n -= self->num_tracked_samples[v];
+            }
+            self->num_samples[u] = n;
+        }
+        for (j = 0; j < num_samples; j++) {
+            u = self->samples[j];
+            self->num_tracked_samples[u] = self->num_samples[u];
+        }
+    }
     self->interval.left = 0;
     self->interval.right = 0;
     self->num_edges = 0;
